@@ -340,6 +340,8 @@ class VTime:
         return s
 
     def sleep(self, seconds):
+        if seconds < 0:
+            raise ValueError("sleep length must be non-negative")     # as time.sleep() does
         s = self._sim()
         s.advance(s.current.mcu.sleep_cost(seconds))
 
